@@ -50,9 +50,13 @@ const (
 	optInPlace       = "in-place"                          // extract -k
 	optCfgSkipOther  = "config-skip-verify-other-location" // config: "skip-verify": true for other locations
 	optCfgSkipThis   = "config-skip-verify-this-location"  // config: "skip-verify": true for the poisoned store
+	// config: a glob entry with "skip-verify": true that matches the poisoned store NEXT TO the store's own entry, which says
+	// "skip-verify": false. README: "A configuration file where more than one key matches a single store location, is
+	// considered invalid" - an invalid file disables nothing
+	optCfgAmbiguous = "config-glob-skip-verify-plus-own-entry"
 )
 
-var cliOptions = []string{optPrintStats, optPrintStats, optInPlace, optTrustInsecure, optTrustInsecure, optErrorRetry, optRetryInterval, optVerbose, optCfgSkipOther, optCfgSkipOther, optCfgSkipThis}
+var cliOptions = []string{optPrintStats, optPrintStats, optInPlace, optTrustInsecure, optTrustInsecure, optErrorRetry, optRetryInterval, optVerbose, optCfgSkipOther, optCfgSkipOther, optCfgSkipThis, optCfgAmbiguous}
 
 func hasOpt(opts []string, o string) bool {
 	for _, x := range opts {
@@ -67,7 +71,9 @@ func genCLI(t *rapid.T) *CLI {
 	c := &CLI{}
 	c.Cmd = rapid.SampledFrom([]string{"extract", "cat", "untar"}).Draw(t, "cmd")
 	// http: the poisoned store directory is served by an in-process file server under /Store/
-	c.Role = rapid.SampledFrom([]string{"store", "store", "cache", "http"}).Draw(t, "role")
+	// group: the store is the second member of a failover group "A|poisoned" whose first member (an HTTP store with
+	// "skip-verify": true in the config) answers every request with 500
+	c.Role = rapid.SampledFrom([]string{"store", "store", "cache", "http", "group"}).Draw(t, "role")
 	if c.Role == "cache" {
 		c.NoRepair = rapid.IntRange(0, 2).Draw(t, "norepair") == 0
 	} else if hx.Thorough() && fakessh.HavePull() {
@@ -200,8 +206,21 @@ func runCLI(c Case) (o hx.Outcome) {
 	// verification explicitly switched off for the poisoned store itself (a local path; the
 	// casync protocol client used for ssh:// has no such switch)
 	skipThis := hasOpt(cl.Opts, optCfgSkipThis) && !ssh
+	ambiguous := hasOpt(cl.Opts, optCfgAmbiguous) && !skipThis && !ssh
 	if skipThis {
 		this["skip-verify"] = true
+	}
+	if ambiguous {
+		this["skip-verify"] = false
+		g := strings.TrimSuffix(location, "/")
+		storeOpts[g[:len(g)-1]+"?"] = map[string]any{"skip-verify": true, "uncompressed": unc, "error-retry": 0}
+	}
+	var groupFirst string
+	if cl.Role == "group" {
+		down := startServer(http.HandlerFunc(func(w http.ResponseWriter, r *http.Request) { http.Error(w, "down", http.StatusInternalServerError) }))
+		defer down.Close()
+		groupFirst = down.URL + "/mirror/"
+		storeOpts[groupFirst] = map[string]any{"skip-verify": true, "uncompressed": unc, "error-retry": 0}
 	}
 	if len(this) > 0 {
 		storeOpts[location] = this
@@ -283,6 +302,8 @@ func runCLI(c Case) (o hx.Outcome) {
 		if cl.NoRepair {
 			args = append(args, "--cache-repair=false")
 		}
+	} else if cl.Role == "group" {
+		args = append(args, "-s", groupFirst+"|"+storeArg)
 	} else {
 		args = append(args, "-s", storeArg)
 	}
@@ -353,9 +374,15 @@ func runCLI(c Case) (o hx.Outcome) {
 	if ssh {
 		o.Class("cli:ssh")
 	}
-	demanded := cl.Role == "cache" && !cl.NoRepair && !skipThis
+	demanded := cl.Role == "cache" && !cl.NoRepair && !skipThis && !ambiguous // (an invalid configuration file is refused: nothing to repair)
+	if cl.Role == "group" && effective {
+		o.Class("cli:role:failover-group-second-member")
+	}
 	for _, op := range cl.Opts {
 		if op == optCfgSkipThis && !skipThis {
+			continue
+		}
+		if op == optCfgAmbiguous && !ambiguous {
 			continue
 		}
 		if (op == optPrintStats || op == optInPlace) && cl.Cmd != "extract" {
@@ -443,7 +470,7 @@ func runCLI(c Case) (o hx.Outcome) {
 		o.Class("effective")
 		// consumer classes count the runs in which the damaged chunk stood between the
 		// command and its output: the poisoned store is the only source, and it verifies
-		if (cl.Role == "store" || viaHTTP) && !skipThis {
+		if (cl.Role == "store" || cl.Role == "group" || viaHTTP) && !skipThis {
 			switch cl.Cmd {
 			case "cat":
 				o.Class("consumer:cli-cat:" + variant)
